@@ -101,6 +101,7 @@ func NewLive(hub *simnet.Hub, o LiveOpts) (*Live, error) {
 		disc.Close()
 		return nil, err
 	}
+	trackInstance(p)
 	if o.NoWorkers {
 		err = p.VerifStartNoWorkers()
 	} else {
